@@ -72,6 +72,26 @@ for nm, e in [
  ('as_casts', '(a as u8, a as i32, c as u64, c as u8, x as i8)'), ('shifts', '(a.wrapping_shl(3), a >> 2, a & b, a | b, a ^ b, !x)'), ('mem_swap', '{ let mut p = a; let mut q = b; std::mem::swap(&mut p, &mut q); (p, q) }'), ('mem_replace', '{ let mut p = a; let o = std::mem::replace(&mut p, b); (p, o) }'), ('mem_take', '{ let mut p = a; let o = std::mem::take(&mut p); (p, o) }'),
 ]: add('ux', nm, e)
 
+for nm, e in [
+ ('q_result', '{ fn f(s: &str) -> Result<usize, String> { let n = s.parse::<usize>().map_err(|_| "bad".to_string())?; Ok(n + 1) } f(s) }'),
+ ('q_option', '{ fn f(s: &str, n: usize) -> Option<char> { let c = s.chars().nth(n)?; Some(c.to_ascii_uppercase()) } f(s, n) }'),
+ ('q_chain', '{ fn f(s: &str) -> Result<u8, std::num::ParseIntError> { let a = s.parse::<u8>()?; let b = s.trim().parse::<u8>()?; Ok(a.wrapping_add(b)) } f(s).ok() }'),
+ ('if_let_else', '{ let Some(c) = s.chars().next() else { return "none".to_string() }; c }'),
+ ('match_guard', 'match s.len() { 0 => "empty", x if x < n => "short", _ => "long" }'),
+ ('while_let', '{ let mut it = s.chars(); let mut k = 0; while let Some(c) = it.next() { if c == \' \' { break } k += 1 } k }'),
+ ('for_range', '{ let mut k = 0usize; for i in 0..n { k += i } k }'),
+ ('for_bytes', '{ let mut k = 0usize; for b in s.bytes() { k += b as usize } k }'),
+ ('for_enumerate', '{ let mut k = 0usize; for (i, c) in s.chars().enumerate() { if c == \'a\' { k += i } } k }'),
+ ('vec_of_strings', '{ let v: Vec<String> = s.split(\' \').map(String::from).collect(); v.len() + v.iter().map(|x| x.len()).sum::<usize>() }'),
+ ('string_builder', '{ let mut o = String::new(); for (i, p) in s.split(\',\').enumerate() { if i > 0 { o.push(\';\'); } o.push_str(p.trim()); } o }'),
+ ('opt_as_deref', '{ let o: Option<String> = if s.is_empty() { None } else { Some(s.to_string()) }; o.as_deref().unwrap_or("dflt").len() }'),
+ ('to_owned_cmp', 's.to_string() == "abc" || s.to_owned().as_str() == "12"'),
+ ('bool_then', '(s.len() > n).then(|| s.len())'), ('bool_then_some', '(s.len() > n).then_some(1u8)'),
+ ('tuple_ret', '{ fn f(s: &str) -> (usize, bool) { (s.len(), s.is_empty()) } f(s) }'),
+ ('slice_pattern', 'match s.as_bytes() { [] => 0, [a] => *a as usize, [a, .., b] => *a as usize + *b as usize }'),
+ ('saturating_idx', 's.get(n.saturating_sub(1)..).map(|x| x.len())'),
+]: add('sn', nm, e)
+
 SIG = {'ss': 's: &str, t: &str', 'sc': 's: &str, c: char', 'sn': 's: &str, n: usize', 'vn': 'v: &[u8], n: usize', 'or': 'a: Option<usize>, b: Result<usize, String>', 'ux': 'a: u64, b: u64, c: i32, x: u8'}
 INPUTS = {
  'ss': [('', ''), ('a', ''), ('', 'a'), ('abc', 'b'), ('a,b,,c', ','), ('abab', 'ab'), ('xabab', 'ab'), ('aaa', 'aa'), ('Hello', 'hello'), ('a\r\nb', '\r\n'), ('b', 'b'), ('ab', 'abc')],
